@@ -666,8 +666,10 @@ class DefaultCodec(Codec):
                         from_parent=True,
                     )
 
-            # Layer current keys on top of parent's keys
-            keys = obj.list_keys(_include_merge_parent=False)
+            # Layer current keys on top of parent's keys. Without a merge parent, every key of
+            # the partition is its own: a partition that was read back from the store lists the
+            # keys it had inherited when it was written as coming from a parent.
+            keys = obj.list_keys(_include_merge_parent=not merge_parent)
             for k in keys:
                 result = obj.get(k)
                 result_type = ResultType.from_object(result)
